@@ -71,6 +71,92 @@ func c13NormJSON(b []byte) (map[string]any, error) {
 	return m, nil
 }
 
+// c13Absolute compares a normalised JSON report with a direct computation over the records.
+func c13Absolute(rep map[string]any, rs []vegeta.Result) error {
+	codes := map[string]int{}
+	errs := map[string]bool{}
+	var in, out, lat uint64
+	var minL, maxL, earliest, latest, end int64
+	succ := 0
+	for i, r := range rs {
+		codes[fmt.Sprint(r.Code)]++
+		in, out, lat = in+r.BytesIn, out+r.BytesOut, lat+uint64(r.Latency)
+		ts := r.Timestamp.UnixNano()
+		if i == 0 || int64(r.Latency) < minL {
+			minL = int64(r.Latency)
+		}
+		if i == 0 || int64(r.Latency) > maxL {
+			maxL = int64(r.Latency)
+		}
+		if i == 0 || ts < earliest {
+			earliest = ts
+		}
+		if i == 0 || ts > latest {
+			latest = ts
+		}
+		if e := ts + int64(r.Latency); i == 0 || e > end {
+			end = e
+		}
+		if r.Code >= 200 && r.Code < 400 {
+			succ++
+		}
+		if r.Error != "" {
+			errs[r.Error] = true
+		}
+	}
+	num := func(path ...string) string {
+		var cur any = rep
+		for _, p := range path {
+			m, ok := cur.(map[string]any)
+			if !ok {
+				return "<missing>"
+			}
+			cur = m[p]
+		}
+		return fmt.Sprint(cur)
+	}
+	for _, c := range []struct {
+		got, want, what string
+	}{
+		{num("bytes_in", "total"), fmt.Sprint(in), "bytes_in.total"},
+		{num("bytes_out", "total"), fmt.Sprint(out), "bytes_out.total"},
+		{num("latencies", "total"), fmt.Sprint(lat), "latencies.total"},
+		{num("latencies", "min"), fmt.Sprint(minL), "latencies.min"},
+		{num("latencies", "max"), fmt.Sprint(maxL), "latencies.max"},
+		{num("earliest"), fmt.Sprint(earliest), "earliest"},
+		{num("latest"), fmt.Sprint(latest), "latest"},
+		{num("end"), fmt.Sprint(end), "end"},
+	} {
+		if c.got != c.want {
+			return fmt.Errorf("%s = %s, the records give %s", c.what, c.got, c.want)
+		}
+	}
+	sc, _ := rep["status_codes"].(map[string]any)
+	if len(sc) != len(codes) {
+		return fmt.Errorf("status_codes = %v, the records give %v", sc, codes)
+	}
+	for k, v := range codes {
+		if fmt.Sprint(sc[k]) != fmt.Sprint(v) {
+			return fmt.Errorf("status_codes[%s] = %v, the records give %d", k, sc[k], v)
+		}
+	}
+	var succF float64
+	fmt.Sscan(num("success"), &succF)
+	if want := float64(succ) / float64(len(rs)); succF < want-1e-9 || succF > want+1e-9 {
+		return fmt.Errorf("success = %v, the records give %v", succF, want)
+	}
+	es, _ := rep["errors"].([]string)
+	if len(es) != len(errs) {
+		return fmt.Errorf("errors = %q, the records have %d distinct error texts", es, len(errs))
+	}
+	for _, e := range es {
+		if !errs[e] {
+			return fmt.Errorf("error text %q is not in the records", e)
+		}
+	}
+	return nil
+}
+
 var c13LatRow = regexp.MustCompile(`(?m)^(Latencies\s+\[min, mean, 50, 90, 95, 99, max\]\s+)([^,]+), ([^,]+), [^,]+, [^,]+, [^,]+, [^,]+, (.+)$`)
 
 func c13NormText(s string) string {
@@ -170,6 +256,10 @@ func runC13Split(c c13Split) error {
 		// requests must be the number of records in all files
 		if fmt.Sprint(a["requests"]) != fmt.Sprint(len(union)) {
 			return fmt.Errorf("%s: report counts %v requests, the files hold %d records", desc, a["requests"], len(union))
+		}
+		// and the exact metrics must be those of the records themselves (reference computed here)
+		if err := c13Absolute(a, union); err != nil {
+			return fmt.Errorf("%s: report -type=json: %v", desc, err)
 		}
 	case c.Type == "text":
 		if a, b := c13NormText(gotS), c13NormText(gotU); a != b {
